@@ -34,7 +34,7 @@ NextWalk == /\ \E k \in Pick(U26 \ KeySet) : keys' = InsertSorted(keys, k)
             /\ UNCHANGED <<hi, runs>>
 SpecWalk == InitSub /\ [][NextWalk]_gvars
 EmitSet == PrintT(<<"T", ToJson(Case(keys))>>)
-MetaSet == SearchIsBinarySearch(keys) /\ (Len(keys) = 0 => OrdTableOk)
+MetaSet == SearchIsBinarySearch(keys) /\ (Len(keys) = 0 => UniverseOk)
 
 \* ---- descriptors
 OneRun(n, L, o) == [r \in 1..(n - L + 1) |-> <<r, IF r = o + 1 THEN L ELSE 1>>]
